@@ -207,6 +207,21 @@ specs["C15"] = {"property": "C15",
     "outside_claim": ["exactness of the float64 mean for interiors with more than 2 pixels (the 4-pixel case is attempted in the thorough tier only); the mean is then covered by the structural 'sites' lemma plus the per-pixel lemmas", "shapes above 6x5"],
     "stubs_doc": ["sites job only: updateBackground / calculateThreshold -> recording stubs (natively: overlay rename + forwarder)", "log.Print* -> no-op"], "jobs": c15}
 
+L3 = "github.com/TheCacophonyProject/lepton3"
+pshapes = {"W": [2, 3, 4], "H": [2, 3], "e": [0, 1]}
+pshapes_t = {"W": [2, 3, 4, 5, 6], "H": [2, 3, 4, 5], "e": [0, 1, 2]}
+pskip = [{"W": 2, "e": 1}, {"H": 2, "e": 1}, {"W": 2, "e": 2}, {"W": 3, "e": 2}, {"W": 4, "e": 2}, {"H": 2, "e": 2}, {"H": 3, "e": 2}, {"H": 4, "e": 2}]
+c13 = [
+    {"name": "boson", "pkg": "cmd/thermal-recorder", "harness": "main", "entry": "ZZ_C13_boson", "grid": pshapes, "grid_thorough": pshapes_t, "skip": pskip},
+    {"name": "lepton", "pkg": "cmd/thermal-recorder", "harness": "main", "entry": "ZZ_C13_lepton", "grid": pshapes, "grid_thorough": pshapes_t, "skip": pskip,
+     "stubs": {L3 + ".ParseTelemetry": "zzStubParseTelemetry"}, "allow_pkgs": [L3]},
+] + mp_jobs()[:3] + [j for j in aux_jobs(1) if j["name"].startswith("bmc_")]
+specs["C13"] = {"property": "C13",
+    "explanation": "Bounded symbolic verification (SSA->SMT). Parsers: convertRawBosonFrame (cmd/thermal-recorder/boson.go) and the pixel loop of lepton3.ParseRawFrame are executed on arbitrary raw bytes for each shape/edge of the grid into a slot holding arbitrary stale data: the result is a *lepton3.BadFrameErr iff some pixel outside the edge border is zero (little-/big-endian words respectively); otherwise nil and every pixel equals its raw word; Boson telemetry is 'no recent FFC'. Processor: in the MotionProcessor step lemma (shared with C01) the 'bad frame' event - the parser scribbles into the current slot and returns an error - is shown to return the error, write nothing to any sink, never call the detector, close a motion recording in progress with exactly one stop, leave the ring phase unchanged (so the scribbled slot is the one the next frame overwrites) and keep the invariant; BMC jobs with bad frames from the real constructor (incl. continuous/test sinks) cross-check.",
+    "assumptions": COMMON_ASSUME + ["Lepton telemetry decoding (lepton3.ParseTelemetry: encoding/binary.Read via reflection) is stubbed to succeed; natively the real one runs"],
+    "outside_claim": ["Lepton telemetry word decoding", "handleConn's event reporting / camera restart request (D-Bus I/O)", "shapes above 6x5"],
+    "stubs_doc": MP_STUBS + ["lepton3.ParseTelemetry -> returns nil (engine only)"], "jobs": c13}
+
 os.makedirs("/verif/checks", exist_ok=True)
 for pid, sp in specs.items():
     json.dump(sp, open(f"/verif/checks/{pid}.json", "w"), indent=1)
